@@ -571,8 +571,10 @@ def c05(ix: Index) -> None:
                 pid = r.get('pid')
                 p = ix.procs.get(pid)
                 if p is not None:
-                    took = any(d['ev'] == r['ev'] and d['bus'] == r['bus'] and d['seq'] < p['b']['seq'] and isinstance(d['by'], int) and d['by'] in chain for d in ix.deqs)
-                    if took:
+                    took = [d for d in ix.deqs if d['ev'] == r['ev'] and d['bus'] == r['bus'] and d['seq'] < p['b']['seq'] and isinstance(d['by'], int) and d['by'] in chain]
+                    # ... while the event that drain was waiting for was still incomplete: F0 is "works through the queue heads until
+                    # the awaited event is done", a drain that goes on taking entries afterwards is something else
+                    if took and not took[-1].get('awaited_done'):
                         mech = 'F0'
             else:
                 mech = _overlap_mech(ix, r['seq'], by)
@@ -622,7 +624,12 @@ def c07(ix: Index) -> None:
     if not ix.sane:
         return
     nb = len(sc['buses'])
-    names = [b['name'] for b in sc['buses']]
+    # (the names the buses really carry: a bus created under a name that is taken is renamed by the library)
+    actual = {r['bus']: r.get('name') for r in ix.R if r['k'] == 'bus_new'}
+    names = [actual.get(i) or b['name'] for i, b in enumerate(sc['buses'])]
+    live = [nm for i, nm in enumerate(names) if i in actual]
+    if len(set(live)) != len(live):
+        ix.v('C07', 'two-live-buses-share-a-name', None, names=live)
     cnt = collections.Counter(r['ev'] for r in ix.R if r['k'] == 'disp_call')
     redisp = {ev for ev, n in cnt.items() if n > 1}
     fin = ix.final['events']
@@ -649,6 +656,11 @@ def c07(ix: Index) -> None:
             ix.C['c07_redispatched_events'] += 1
             if got_m != reach_m and not (stopped & reach_m):
                 ix.v('C07', 'reach-set-after-redispatch', None, ev=ev, handed_to=sorted(entries), want=sorted(reach_m), got=sorted(got_m))
+            # the path still lists every bus that accepted the event exactly once, in order of FIRST arrival
+            path_m = fin.get(ev, {}).get('path')
+            want_m = [names[b] for _s, b, _by in firsts]
+            if path_m is not None and path_m != want_m and not ix.mk.get(ev, {}).get('prepath'):
+                ix.v('C07', 'event-path', None, ev=ev, path=path_m, want=want_m, redispatched=True)
             continue
         reach, st = {entry}, [entry]
         while st:
@@ -719,6 +731,17 @@ def c08(ix: Index) -> None:
                 mech = None
             ix.v('C08', 'changed-after-complete', mech, ev=ev, first=fc[0], at=seq, kind=kind, changed=changed[:5], status=(fc[1], status))
             first_complete[ev] = (seq, status, results)  # report each change once
+    # the program continues in a second event loop: whatever was complete stays complete when looked at from there
+    for rec in ix.final.get('second_loop') or []:
+        if 'error' in rec:
+            ix.v('C08', 'second-loop-observation-failed', None, error=rec['error'])
+            continue
+        ix.C['c08_second_loop_observations'] += 1
+        before = rec['snap_before']
+        after = rec['snap']
+        same = (before[0], tuple(map(tuple, before[2]))) == (after[0], tuple(map(tuple, after[2])))
+        if rec['sig'] is not True or rec['await'] != 'same' or rec['status'] != 'completed' or not same:
+            ix.v('C08', 'not-complete-in-second-loop', None, ev=rec['ev'], sig=rec['sig'], await_=rec['await'], status=rec['status'], results_same=same)
 
 
 # ======================================================================== C09
@@ -1067,6 +1090,12 @@ def c10(ix: Index) -> None:
     fin = ix.final['events']
     fired = []
     has_busy = any(r['k'] == 'op' and r['op'] == 'busy' for r in ix.R)
+
+    def arm_lo(v: int) -> float:
+        """Earliest instant at which the library can have armed the timer of invocation v (see deadline_lo below)."""
+        q = ix.procs.get(ix.inv[v]['pid'])
+        return q['b']['vt'] if q is not None and has_busy else ix.inv[v]['vt']
+
     for inv, i in ix.inv.items():
         to = ix.mk.get(i['ev'], {}).get('timeout')
         if to is None:
@@ -1091,7 +1120,7 @@ def c10(ix: Index) -> None:
                 for up in ix.driver_chain(inv)[1:]:
                     if isinstance(up, int) and up in ix.inv:
                         to_up = ix.mk.get(ix.inv[up]['ev'], {}).get('timeout')
-                        if to_up is not None and ix.inv[up]['vt'] + to_up <= hc0['vt'] + 1e-3:
+                        if to_up is not None and arm_lo(up) + to_up <= hc0['vt'] + 1e-3:
                             explained = True
                 if not explained and not _stopped_buses(ix):
                     ix.v('C10', 'handler-cancelled-before-its-own-timeout', None, ev=i['ev'], h=i['h'], deadline=deadline, cancelled_at=hc0['vt'])
@@ -1124,7 +1153,7 @@ def c10(ix: Index) -> None:
             for up in ix.driver_chain(inv)[1:]:
                 if isinstance(up, int) and up in ix.inv:
                     to_up = ix.mk.get(ix.inv[up]['ev'], {}).get('timeout')
-                    if to_up is not None and real_exit is not None and ix.inv[up]['vt'] + to_up <= real_exit['vt'] + 1e-3:
+                    if to_up is not None and real_exit is not None and arm_lo(up) + to_up <= real_exit['vt'] + 1e-3:
                         enclosing_fired = True
             if enclosing_fired and res is not None and res['status'] == 'error' and res['err'] == 'CancelledError':
                 pass
@@ -1410,13 +1439,26 @@ def c17(ix: Index) -> None:
             continue
         # healthy path (possibly with injected open/write failures on THIS bus's file): lines == attempts - injected failures
         faults_here = [r for r in ix.R if r['k'] == 'io_fault' and r.get('bus') == bi]
+        # attempts for events whose payload has no JSON encoding fail as well (encode failure instead of open / write failure)
+        unenc = [wb for wb in begins if 'unenc' in (ix.payloads.get(wb['ev']) or {})]
         ix.C['c17_failed_writes'] += len(faults_here)
-        if faults_here and errors_logged < len(faults_here):
-            ix.v('C17', 'failing-write-not-reported', None, bus=bi, failures=len(faults_here), error_records=errors_logged, kind='injected')
-        if len(lines) != len(begins) - len(faults_here):
-            ix.v('C17', 'line-count', None, bus=bi, lines=len(lines), expected=len(begins) - len(faults_here), attempts=len(begins), injected_failures=len(faults_here))
+        ix.C['c17_unencodable_events'] += len(unenc)
+        if (faults_here or unenc) and errors_logged < len(faults_here) + len(unenc) - sum(1 for wb in unenc if any(wb['seq'] < f['seq'] for f in faults_here)):
+            ix.v('C17', 'failing-write-not-reported', None, bus=bi, failures=len(faults_here) + len(unenc), error_records=errors_logged, kind='injected / unencodable')
+        begins_enc = [wb for wb in begins if wb not in unenc]
+        # (an injected open / write failure cannot hit an attempt that already failed to encode: count the faults that fell into
+        # encodable attempts)
+        def _in_unenc(f):
+            for wb in unenc:
+                e_seq = next((e['seq'] for e in ends.get(wb['ev'], []) if e['seq'] > wb['seq']), 10**12)
+                if wb['seq'] < f['seq'] < e_seq:
+                    return True
+            return False
+        faults_enc = [f for f in faults_here if not _in_unenc(f)]
+        if len(lines) != len(begins_enc) - len(faults_enc):
+            ix.v('C17', 'line-count', None, bus=bi, lines=len(lines), expected=len(begins_enc) - len(faults_enc), attempts=len(begins), injected_failures=len(faults_here), unencodable=len(unenc))
             continue
-        ok_begins = list(begins)
+        ok_begins = list(begins_enc)
         # match lines to successful attempts by event id (two writes may be in flight at once on a parallel bus, so
         # the file order is only constrained for attempts that did not overlap)
         parsed = []
